@@ -175,19 +175,28 @@ def r13ab_rep_structure(ctx):
         f = tp.methods["get_%s_date" % REPNAME[t]]
         gf, gret, order = getter_order(ctx, t)
         cells = {}
-        for n in f.node.body:
-            if not isinstance(n, ast.If):
+        from ..flow import path_conds
+        for r0 in walk_no_nested(f.node):
+            if not isinstance(r0, ast.Return) or r0.value is None or (
+                    isinstance(r0.value, ast.Constant) and
+                    r0.value.value is None):
                 continue
+            # the representation this return is reached under: the
+            # predicate that holds on its path (positively, innermost first)
             src = None
-            for s in GROUPS:
-                if U(n.test) == "%s.get_is_%s_date()" % (f.self_name,
-                                                        REPNAME[s]):
-                    src = s
-            if src is None:
-                continue
-            rets = [x for x in n.body if isinstance(x, ast.Return)]
-            if rets:
-                cells[src] = rets[0]
+            for tst, pol in path_conds(r0):
+                inner, want_pol = tst, True
+                if isinstance(tst, ast.UnaryOp) and isinstance(
+                        tst.op, ast.Not):
+                    inner, want_pol = tst.operand, False
+                for s in GROUPS:
+                    if U(inner) == "%s.get_is_%s_date()" % (
+                            f.self_name, REPNAME[s]) and pol == want_pol:
+                        src = src or s
+                if src:
+                    break
+            if src is not None and src not in cells:
+                cells[src] = r0
         for s in GROUPS:
             rep.anchor(rule, "dispatch cells")
             key = ctx.fkey(f, None, "cell:%s<-%s" % (t, s))
